@@ -428,3 +428,16 @@ Example check_run_u_seeded_witness :
   corrupt_safe [97;98;32;101;769;99;32;127462;127463;32;127464]%N = true
   /\ agree_C14s v (run_C14s v) (run_C14s v) = true.
 Proof. vm_compute. split; reflexivity. Qed.
+
+(** the same over the rational numbers: the value of the draw, k / 2^53, is below the value of the
+    probability, m * 2^e, exactly when the model's integer test fires (C14_Seeded_Real.v) *)
+From Coq Require Import QArith.
+From TU Require Import C14_Seeded_Real.
+Theorem thr_real : forall k m e,
+  (k < thr (Fin m e))%Z <-> (C14_Seeded_Real.q_draw k < C14_Seeded_Real.q_f64 m e)%Q.
+Proof. exact C14_Seeded_Real.thr_real_l. Qed.
+Print Assumptions thr_real.
+Example thr_real_tenth :   (* 0.1 = 7205759403792794 * 2^-56 lies strictly between 900719925474099 / 2^53 and 900719925474100 / 2^53 *)
+  (C14_Seeded_Real.q_draw 900719925474099 < C14_Seeded_Real.q_f64 7205759403792794 (-56))%Q
+  /\ ~ (C14_Seeded_Real.q_draw 900719925474100 < C14_Seeded_Real.q_f64 7205759403792794 (-56))%Q.
+Proof. split; [apply thr_real; vm_compute; reflexivity|]. intros H. apply thr_real in H. vm_compute in H. discriminate. Qed.
